@@ -208,6 +208,46 @@ def client_kind_matches_declaration(ctx, rule):
     return n
 
 
+def subscription_decode_failures_are_rejected(ctx, rule):
+    """a generated subscription closure answers a parameter that fails to decode by rejecting the pending subscription with
+    that error, and the rejection is driven to completion (its future is handed to tokio::spawn or awaited): the failure
+    arm of every parameter read reaches such a reject. A rejection that is polled once and dropped (or never issued) is
+    replaced by the fallback `internal error` when the connection's queue is momentarily full."""
+    F, R = ctx.F, ctx.R
+    n = 0
+    for b in F.real_bodies():
+        if "::into_rpc::{closure#" not in b.path:
+            continue
+        if not any(re.search(r"PendingSubscriptionSink", l["ty"]) for l in b.locals[1:b.argc + 1]) and not b.calls_to(r"PendingSubscriptionSink::(reject|accept)$"):
+            # closures that own a pending sink: the subscription callbacks (sink is a parameter or captured by the async block)
+            if "PendingSubscriptionSink" not in " ".join(l["ty"] for l in b.locals):
+                continue
+        dec = [c for c in b.calls if re.search(r"ParamsSequence::<'a>::(next|optional_next)$|Params::<'a>::(parse|one)$", c.name() or "")]
+        if not dec:
+            continue
+        R.fn(b)
+        rej = b.calls_to(r"PendingSubscriptionSink::reject$")
+        driven = set()
+        for r in rej:
+            if r.dest is None:
+                continue
+            holders = follow_value(b, r.dest["l"])
+            for sp in b.calls_to(r"tokio::(task::)?spawn(::spawn)?$|IntoFuture>?::into_future$"):
+                if sp.args and op_place(sp.args[0]) is not None and op_place(sp.args[0])["l"] in holders:
+                    driven.add(r.bb)
+        # a support function of the library that takes the sink over (checked on the library side: C16.REJ)
+        for hp in b.calls_to(r"(proc_macros_support|__reexports)::\w+$"):
+            if any(op_place(a) is not None and not op_place(a).get("p") and "PendingSubscriptionSink" in b.locals[op_place(a)["l"]]["ty"] for a in hp.args):
+                driven.add(hp.bb)
+        exits = {bi for bi, blk in enumerate(b.blocks) if blk["term"] and blk["term"]["t"] == "return"}
+        for k, c in enumerate(sorted(dec, key=lambda c: c.bb)):
+            n += 1
+            err_t = [arms["1"] for sb, arms, other in flow.switch_on(b, c.dest["l"]) if arms.get("1") is not None] if c.dest else []
+            ok = bool(err_t) and bool(driven) and all(t in driven or flow.all_paths_pass(b, t, driven, exits) for t in err_t)
+            R.check(ok, rule, "%s:reject-on-decode-failure@%d" % (fkey(b), k), "a failed parameter read rejects the subscription, and the rejection is driven to completion", "%s: the failure arm of %s does not reach a PendingSubscriptionSink::reject whose future is spawned or awaited%s: the `invalid params` (-32602) answer is lost - e.g. replaced by the fallback `internal error` when the connection's queue is full at that moment" % (short(b.path), (c.name() or "").split("::")[-1], "" if rej or driven else " (the closure never calls reject)"), where(c))
+    return n
+
+
 def decode_errors_propagate(ctx, rule):
     """in every generated server closure a failed read of a parameter (ParamsSequence::next / optional_next, Params::parse
     for by-name) ends the call with the error: the Result is matched (its Err arm leaves the closure / rejects the
